@@ -149,3 +149,36 @@ func VxC10_Weighted() {
 	// this sum by rounding, but an exactly equal pair is still a failure (so a counterexample replays)
 	vx.Assert(q*tot < upto || (!vx.Real() && q*tot != upto && vx.Close(q*tot, upto, 1e-9, 1e-12)), "the weight up to the result exceeds q*total")
 }
+
+// VxC10_WeightedEnds: for q <= 0 and q >= 1 a weighted sample returns exactly its smallest and
+// largest value, bit-precisely (weights whose sum absorbs the smaller ones included).
+// C10: "clamped to the smallest and largest value, and returns them for q<=0 and q>=1".
+//
+//vx:mode FP
+//vx:solver cvc5
+//vx:timeout 60000
+//vx:bound n = 1..3 values in any order (|x| <= 1e100), weights any positive finite float64 (including ones that vanish next to the total); q in {-Inf, -1, -0, 0, 1, 1.5, +Inf}
+//vx:outside other q <= 0 or q >= 1 (the early return does not look at q further); zero weights (Bounds ignores such values)
+func VxC10_WeightedEnds() {
+	n := vx.Choose("n", 1, 3)
+	xs, ws := vx.Floats("x", n), vx.Floats("w", n)
+	for i := range xs {
+		vx.Assume(vx.And(xs[i] >= -1e100, xs[i] <= 1e100))
+		vx.Assume(vx.And(ws[i] > 0, ws[i] <= 1e300))
+	}
+	q := []float64{math.Inf(-1), -1, math.Copysign(0, -1), 0, 1, 1.5, math.Inf(1)}[vx.Choose("q", 0, 6)]
+	s := Sample{Xs: xs, Weights: ws}
+	vx.Freeze(xs, ws)
+	got := s.Quantile(q)
+	vx.Thaw()
+	att := false
+	for _, x := range xs {
+		att = vx.Or(att, x == got)
+		if q <= 0 {
+			vx.Assert(got <= x, "q <= 0 returns the minimum of a weighted sample")
+		} else {
+			vx.Assert(got >= x, "q >= 1 returns the maximum of a weighted sample")
+		}
+	}
+	vx.Assert(att, "the end quantiles of a weighted sample are sample values")
+}
